@@ -61,39 +61,39 @@ func writeEvidence(b builds, cfg tierCfg, oi oracleInfo, agg *simAgg, eq, cmp in
 		"rule": "evaluation = one simulated run (a generated workload of 1-8 caller tasks (rarely a crowd of 17-64) x 1-6 calls each, one seeded schedule, one seeded fault plan) or one call of a sequential-reference pass. " +
 			"A run is non-trivial iff >=2 tasks were inside a library call at the same time and >=1 preemptive switch happened (for the no-preemption policy 'seq': >=2 calls in a seeded order). " +
 			"Distinct = distinct 64-bit signatures of the run's event log (every switch with task/op/step-in-op/site, every fault event, every op begin/end with the hash of its outcome), counted by the driver over all processes of both builds.",
-		"samples":                      samples,
-		"exhaustive":                   false,
-		"mode":                         mode,
-		"simulated_runs":               agg.runs,
-		"runs_per_build":               agg.perBuild,
-		"processes":                    agg.procs,
-		"cold_starts":                  agg.faults["cold"],
-		"operations":                   agg.ops,
-		"logical_steps_simulated_time": agg.steps,
-		"preemptive_switches":          agg.switches,
-		"runs_per_hour":                runsPerHour,
-		"steps_per_hour":               stepsPerHour,
-		"seeds":                        []uint64{seed},
-		"fault_kinds_fired":            agg.faults,
-		"policy_runs":                  agg.policy,
-		"tasks_per_run_histogram":      agg.tasksHist,
-		"reach_probes":                 agg.probes,
-		"yield_sites_total":            len(b.rep.Sites),
-		"yield_sites_reached":          reached,
-		"yield_sites_preempted_at":     preempted,
-		"yield_sites_never_reached":    unreached,
-		"shared_sites":                 b.rep.NShared,
-		"api_sites":                    b.rep.NAPI,
-		"package_level_vars":           len(b.rep.PkgVars),
-		"map_range_sites":              len(b.rep.MapRange),
-		"unmodelled_constructs":        b.rep.Unmodelled,
-		"imports_of_note":              b.rep.ImportsOfNote,
-		"sync_rewrites":                b.rep.Rewrites,
-		"api_functions":                b.rep.APIFuncs,
-		"corpus_calls":                 len(oi.corpus.Calls),
+		"samples":                             samples,
+		"exhaustive":                          false,
+		"mode":                                mode,
+		"simulated_runs":                      agg.runs,
+		"runs_per_build":                      agg.perBuild,
+		"processes":                           agg.procs,
+		"cold_starts":                         agg.faults["cold"],
+		"operations":                          agg.ops,
+		"logical_steps_simulated_time":        agg.steps,
+		"preemptive_switches":                 agg.switches,
+		"runs_per_hour":                       runsPerHour,
+		"steps_per_hour":                      stepsPerHour,
+		"seeds":                               []uint64{seed},
+		"fault_kinds_fired":                   agg.faults,
+		"policy_runs":                         agg.policy,
+		"tasks_per_run_histogram":             agg.tasksHist,
+		"reach_probes":                        agg.probes,
+		"yield_sites_total":                   len(b.rep.Sites),
+		"yield_sites_reached":                 reached,
+		"yield_sites_preempted_at":            preempted,
+		"yield_sites_never_reached":           unreached,
+		"shared_sites":                        b.rep.NShared,
+		"api_sites":                           b.rep.NAPI,
+		"package_level_vars":                  len(b.rep.PkgVars),
+		"map_range_sites":                     len(b.rep.MapRange),
+		"unmodelled_constructs":               b.rep.Unmodelled,
+		"imports_of_note":                     b.rep.ImportsOfNote,
+		"sync_rewrites":                       b.rep.Rewrites,
+		"api_functions":                       b.rep.APIFuncs,
+		"corpus_calls":                        len(oi.corpus.Calls),
 		"corpus_calls_used_in_simulated_runs": len(agg.usedCalls),
 		"corpus_calls_used_max_per_process":   agg.callsUsed,
-		"corpus_calls_over_step_bound": oi.dropped,
+		"corpus_calls_over_step_bound":        oi.dropped,
 		"corpus_calls_removed_because_they_crash_or_hang_even_alone": len(oi.excluded),
 		"oracle_batch_calls":               oi.batch,
 		"oracle_soak_calls_in_one_process": oi.soak,
@@ -102,15 +102,15 @@ func writeEvidence(b builds, cfg tierCfg, oi oracleInfo, agg *simAgg, eq, cmp in
 		"bounds": map[string]any{"max_caller_tasks": 64, "usual_caller_tasks": "1-8", "max_ops_per_task": 6, "max_expression_bytes": 6000, "max_list_entries": 1100, "max_steps_per_call": cfg.maxStep,
 			"runs_per_process": cfg.runs, "processes_per_build": cfg.procs},
 		"components": map[string]string{
-			"spdxexp, spdxlicenses":        "REAL code: current /repo working tree, copied to a scratch dir and instrumented with yield points at check time",
-			"go standard library, GC":      "real, uninstrumented; automatic GC off during runs, collections only where the simulator injects them",
-			"caller goroutines":            "real goroutines, released one at a time by the simulator (choice of who runs: simulator PRNG only); hand-off invisible to the race detector",
-			"stdout/stderr":                "real fds 1/2 redirected to a capture file",
-			"clock, timers":                "the pinned tree has none; when a tree under check uses time.Now/Sleep/After/Tick/Timer/Ticker/AfterFunc they are rewritten to the simulated clock (see sync_rewrites for what was rewritten in this run)",
-			"network, disk":                "do not exist in the library: nothing to stub",
+			"spdxexp, spdxlicenses":   "REAL code: current /repo working tree, copied to a scratch dir and instrumented with yield points at check time",
+			"go standard library, GC": "real, uninstrumented; automatic GC off during runs, collections only where the simulator injects them",
+			"caller goroutines":       "real goroutines, released one at a time by the simulator (choice of who runs: simulator PRNG only); hand-off invisible to the race detector",
+			"stdout/stderr":           "real fds 1/2 redirected to a capture file",
+			"clock, timers":           "the pinned tree has none; when a tree under check uses time.Now/Sleep/After/Tick/Timer/Ticker/AfterFunc they are rewritten to the simulated clock (see sync_rewrites for what was rewritten in this run)",
+			"network, disk":           "do not exist in the library: nothing to stub",
 			"sync primitives, goroutines, channels, select": "the pinned tree has none; in a tree under check they are rewritten to simulator models (Mutex, RWMutex, Once, WaitGroup, Cond, go, chan, select), anything unmodelled switches the run to free-running goroutines under -race (mode = degraded)",
-			"sequential reference":         "the same tree, uninstrumented, one call at a time in fresh processes",
-			"stubs":                        "none",
+			"sequential reference":                          "the same tree, uninstrumented, one call at a time in fresh processes",
+			"stubs":                                         "none",
 		},
 	}
 	if st != nil {
